@@ -23,6 +23,7 @@ func checkC07(p *Prog, res *Result, tier string) {
 	res.rule("C07-R3", "previous version only when superseded; marker never deleted before the version it hides", 2)
 	res.rule("C07-R4", "skip test before each engine delete; failures reach the skipped-key update; non-CAS errors set the skipped key", 5)
 	res.rule("C07-R5", "compaction revision clamp (C09-R2)", 1)
+	res.rule("C07-R6", "every adapter's compare-and-delete compares the stored value / version before deleting (C11-R1)", 6)
 
 	compactF := p.structField("pkg/backend/scanner", "workerConfig", "compact")
 	revF := p.structField("pkg/backend/scanner", "workerConfig", "revision")
@@ -429,4 +430,13 @@ func checkC07(p *Prog, res *Result, tier string) {
 
 	// ---- R5 ----
 	checkCompactionClamp(p, r, res, "C07-R5")
+
+	// ---- R6: the compare-and-delete primitive of every adapter really compares (C11-R1) ----
+	sub := newResult("C11")
+	checkC11(p, sub, tier)
+	for _, o := range sub.Obls {
+		if o.Rule == "C11-R1" && strings.Contains(o.Construct, "DelCurrent") {
+			res.add("C07-R6", o.Rule+" "+o.Construct, o.Status, o.Pos, o.Detail)
+		}
+	}
 }
